@@ -22,6 +22,8 @@ def bootstrap():
     if lr not in sys.path:
         sys.path.insert(1, lr)
     os.environ.setdefault('LOKI_VERIF', '1')
+    from sim import pool  # pylint: disable=import-outside-toplevel
+    pool.install_global_seams()
     sys.setrecursionlimit(max(sys.getrecursionlimit(), 5000))
 
 
